@@ -21,7 +21,7 @@ Definition Qops : NumOps Q :=
 Definition cfg1 (lower : Q) (periodic same sub hidej other : bool) : @abf_cfg Q :=
   @mkCfg Q 1%nat [lower] [1] [2%Z] [periodic] 2 1 true false [0] false same [sub] hidej [other] false (fun _ => 1).
 (* [inp] with applyBias on, [inp0] with applyBias off at that step *)
-Definition inpa (a : bool) (x e o j : Q) (boundary : bool) : @abf_in Q := @mkIn Q [x] [e] [o] [j] boundary a.
+Definition inpa (a : bool) (x e o j : Q) (boundary : bool) : @abf_in Q := @mkIn Q [x] [e] [o] [j] boundary a [0].
 Definition inp := inpa true.
 Definition inp0 := inpa false.
 
